@@ -30,9 +30,10 @@ def class_of(root_id, C, lay, j, n):
 class TokenRoot(KDDataset):
     """root whose samples are recognisable: x -> ('x', id, j), aux -> ('aux', id, j), class -> int"""
 
-    def __init__(self, root_id, n, C=3, bulk="list", lay=0):
+    def __init__(self, root_id, n, C=3, bulk="list", lay=0, needs_ctx=False):
         super().__init__()
         self.root_id, self.n, self.C, self.bulk, self.lay = root_id, n, C, bulk, lay
+        self.needs_ctx = needs_ctx
         self.disposed = 0
         self.custom_attribute = ("attr", root_id)
         self.class_names = [f"c{k}" for k in range(C)]
@@ -57,8 +58,21 @@ class TokenRoot(KDDataset):
     def getitem_aux(self, idx, ctx=None):
         return ("aux", self.root_id, self._norm(idx))
 
+    @property
+    def requires_propagate_ctx(self):
+        # a dataset can demand that a context is always handed to its loaders
+        return self.needs_ctx
+
     def getitem_aux2(self, idx, ctx=None):
+        if self.needs_ctx:
+            return ("aux2", self.root_id, self._norm(idx), "ctx" if ctx is not None else "no-ctx")
         return ("aux2", self.root_id, self._norm(idx))
+
+    def getshape_target(self):
+        return (7 + self.root_id,)
+
+    def getshape_embedding(self):
+        return (3,)
 
     def getitem_class(self, idx, ctx=None):
         return class_of(self.root_id, self.C, self.lay, self._norm(idx), self.n)
@@ -97,7 +111,11 @@ class TokenRoot(KDDataset):
 
 
 class PassWrapper(KDWrapper):
-    pass
+    """pass-through layer that owns a resource: dispose must reach it"""
+
+    def dispose(self):
+        self.__dict__["disposed_here"] = self.__dict__.get("disposed_here", 0) + 1
+        super().dispose()
 
 
 class PassWrapper2(KDWrapper):
@@ -217,7 +235,7 @@ def build(spec, _roots=None):
     """returns (dataset_object, ref) where ref is a Ref tree mirroring the spec with resolved index lists"""
     t = spec["t"]
     if t == "root":
-        ds = TokenRoot(spec["id"], spec["n"], spec.get("C", 3), spec.get("bulk", "list"), spec.get("lay", 0))
+        ds = TokenRoot(spec["id"], spec["n"], spec.get("C", 3), spec.get("bulk", "list"), spec.get("lay", 0), bool(spec.get("needs_ctx")))
         return ds, {"t": "root", "spec": spec, "obj": ds}
     if t == "wrap":
         c, cref = build(spec["child"])
@@ -292,6 +310,8 @@ def ref_item(ref, item, k, ctx=None):
             return class_of(s["id"], s.get("C", 3), s.get("lay", 0), j, n)
         if item == "x" and ctx is not None:
             ctx["x@root"] = (s["id"], j)
+        if item == "aux2" and s.get("needs_ctx"):
+            return (item, s["id"], j, "ctx")
         return (item, s["id"], j)
     if t == "wrap":
         if ref["spec"]["kind"] == "tag" and item == "x":
@@ -348,6 +368,18 @@ def linear_layers(ref):
     return out, ref["obj"]
 
 
+def all_objects(ref, acc=None):
+    """every built object of the tree (roots and layers)"""
+    acc = [] if acc is None else acc
+    acc.append(ref["obj"])
+    if ref["t"] == "concat":
+        for c in ref["children"]:
+            all_objects(c, acc)
+    elif ref["t"] != "root":
+        all_objects(ref["child"], acc)
+    return acc
+
+
 def depth(spec):
     t = spec["t"]
     if t == "root":
@@ -377,7 +409,8 @@ _counter = st.shared(st.just(0))
 def root_spec(draw, min_n=1, max_n=12, with_bulk=True):
     return {"t": "root", "id": draw(st.integers(0, 9)), "n": draw(st.integers(min_n, max_n)),
             "C": draw(st.integers(1, 5)), "lay": draw(st.integers(0, 3)),
-            "bulk": draw(st.sampled_from(["list", "internal", "numpy", "tensor"])) if with_bulk else "none"}
+            "bulk": draw(st.sampled_from(["list", "internal", "numpy", "tensor"])) if with_bulk else "none",
+            "needs_ctx": draw(st.sampled_from([False, False, True]))}
 
 
 def _size_bound(spec):
